@@ -192,6 +192,24 @@ CHECKS = {
               "specification's stress as well"),
         technique="TLA+ exact-rational FE model checked by TLC; exact comparison with the element-level modules",
         design="9/C12"),
+    "C05": dict(
+        text=("Solvers.tla enumerates Gaussian-integer matrices (all 2x2 over a real and a complex entry set, all symmetric and "
+              "a family of Hermitian 3x3, binary 3x3, and a curated list needing pivoting / 2x2 LDL blocks / triangular / "
+              "diagonal) and checks op(A) adj(op(A)) = det I for op in {N,T,H}, the transposition identities the solvers rely "
+              "on (A^T x = b <=> A^H conj x = conj b, symmetric => T = N, Hermitian => H = N), and that the solver selected by "
+              "the transcribed decision tree of auto_determine_solver is admissible for the matrix's class. For every "
+              "non-singular matrix TLC prints class, admissible solvers, the auto-determined solver (dense and sparse) and "
+              "adjugate / determinant per mode; every admissible solver (SolverDiagonal, DenseQR, DenseLU, DenseCholesky incl. "
+              "LDL fall-back, DenseLDL with each flag, SparseLU, CG with none/Jacobi/SOR/ILU, and the auto-determined ones) "
+              "must return adj b / det with the shape of b for modes N/T/H and right-hand sides (n), (n,1), (n,3) with "
+              "dependent columns, real and complex; the auto choice itself is compared with the transcription. [O] CG with "
+              "GeometricMultigrid (V and W) and with an initial guess on 2D/3D Poisson and elasticity matrices is decided by "
+              "the residual of the requested system."),
+        note=(TLC_BASE + "; a complex right-hand side for a real sparse matrix is outside the admissible inputs of the "
+              "SuperLU-based components; optional back-ends (Pardiso, CHOLMOD, CVXOPT) are absent; growth of the condition "
+              "number and single precision are not decided; multigrid convergence is an observation predicate"),
+        technique="TLA+ exact adjugate/determinant model and decision-tree transcription checked by TLC; replay on every admissible solver",
+        design="9/C05"),
 }
 
 
